@@ -455,6 +455,23 @@ func (e *Env) verifyFunc(it *Item) {
 			e.modelNames = append(e.modelNames, p.Name()+e.leavesOf(p.Type())[j].Path)
 		}
 	}
+	// free variables of a closure under contract: like parameters (a variable captured by
+	// reference is a pointer to its cell, which exists at entry: write *x in the contract)
+	var fvals []Value
+	for _, fv := range fn.FreeVars {
+		v := e.freshValue(fv.Type(), "fv_"+fv.Name())
+		for j, l := range e.leavesOf(fv.Type()) {
+			if l.Sort == sInt && (isRefType(l.Typ) || strings.HasSuffix(l.Path, "#arr")) {
+				e.assume(sx("<", e.flatten(v)[j], next0))
+			}
+			if l.Sort == sInt && isIfaceType(l.Typ) {
+				e.declAtEntry()
+				e.assume(sx("atentry", e.flatten(v)[j]))
+			}
+		}
+		fvals = append(fvals, v)
+		vars[fv.Name()] = v
+	}
 	entry := st.clone()
 	ctx := &SpecCtx{e: e, st: entry, vars: vars, pkg: pkg}
 	for _, c := range it.Clauses {
@@ -493,6 +510,9 @@ func (e *Env) verifyFunc(it *Item) {
 	fr.regs = map[ssa.Value]Value{}
 	for i, p := range fn.Params {
 		fr.regs[p] = args[i]
+	}
+	for i, fv := range fn.FreeVars {
+		fr.regs[fv] = fvals[i]
 	}
 	e.cur = fr
 	e.useAt(fr, "entry", st)
